@@ -261,6 +261,63 @@ def filter_ok(shape, cards, abstract, ctc_code, methods) -> bool:
     return not check_report(res, shape, cards, abstract, trees, m, subset=methods)
 
 
+def _entry(r):
+    return (r['name'], norm_result(r['result']), r['size'], r['ratio'])
+
+
+def norm_result(v):
+    if isinstance(v, (list, tuple, set, frozenset)):
+        return sorted((str(x) for x in v))
+    return v
+
+
+def filter_consistent(shape, cards, abstract, ctc_code, methods) -> bool:
+    """a report restricted to some metrics contains exactly the entries the full report (which is checked
+    against the definitions) has for those metrics: same names, values, sizes, ratios."""
+    m, trees = _model(shape, cards, abstract, ctc_code)
+    full = {r['name']: _entry(r) for r in FMMetrics().execute(m).get_result()}
+    op = FMMetrics()
+    op.only_these_metrics(list(methods))
+    res = op.execute(m).get_result()
+    if len(res) != len(set(methods)):
+        return False
+    seen = []
+    for r in res:
+        e = _entry(r)
+        if e[0] in seen or e[0] not in full or full[e[0]] != e:
+            return False
+        seen.append(e[0])
+    return True
+
+
+def filter_pair(shape, cards, i, j) -> bool:
+    n = R.n_features(shape)
+    meths = [METHODS[i]] if i == j else [METHODS[i], METHODS[j]]
+    return filter_consistent(shape, cards, [k % 3 == 1 for k in range(n)], 1, meths)
+
+
+def single_filters_cover(shape, cards, abstract, ctc_code) -> list:
+    """every metric alone: one entry, equal to the full report's entry; the 40 single reports name 40 different metrics."""
+    m, trees = _model(shape, cards, abstract, ctc_code)
+    full = {r['name']: _entry(r) for r in FMMetrics().execute(m).get_result()}
+    names = []
+    out = []
+    for meth in METHODS:
+        op = FMMetrics()
+        op.only_these_metrics([meth])
+        res = op.execute(m).get_result()
+        if len(res) != 1:
+            out.append('filter [%s] returns %d entries' % (meth, len(res)))
+            continue
+        e = _entry(res[0])
+        names.append(e[0])
+        if full.get(e[0]) != e:
+            out.append('filter [%s]: entry %r differs from the full report\'s %r' % (meth, e, full.get(e[0])))
+    if len(set(names)) != len(METHODS) or set(names) != set(full):
+        out.append('the single-metric reports do not cover the full report: %d names for %d metrics' % (len(set(names)), len(full)))
+    return out
+
+
 def replay_report(shape, cards, abstract, ctc_code):
     shape = totuple(shape)
     cards = [tuple(c) for c in cards]
@@ -278,9 +335,54 @@ def replay_report(shape, cards, abstract, ctc_code):
         for meths in (['features'], ['leaf_features', 'branching_factor'], ['mandatory_features', 'solitary_features', 'tree_relationships'], []):
             if not filter_ok(shape, cards, abstract, ctc_code, meths):
                 out.append('metric filter %r gives a wrong report (shape %s)' % (meths, R.shape_str(shape)))
+        out += ['%s (shape %s cards %r)' % (x, R.shape_str(shape), cards) for x in single_filters_cover(shape, cards, abstract, ctc_code)[:3]]
+        rnd = random.Random(len(cards) * 7919 + ctc_code)
+        for _ in range(12):
+            meths = rnd.sample(METHODS, rnd.randint(2, 5))
+            if not filter_consistent(shape, cards, abstract, ctc_code, meths):
+                out.append('metric filter %r: entries differ from those of the full report (shape %s cards %r)' % (meths, R.shape_str(shape), cards))
+                break
     except Exception as exc:
         out.append('history/filter raises %s: %s' % (type(exc).__name__, exc))
     return out
+
+
+def replay_filter_pairs(shape, cards, abstract, ctc_code):
+    shape = totuple(shape)
+    cards = [tuple(c) for c in cards]
+    out = []
+    for i in range(len(METHODS)):
+        for j in range(i + 1, len(METHODS)):
+            for meths in ([METHODS[i], METHODS[j]], [METHODS[j], METHODS[i]]):
+                try:
+                    ok = filter_consistent(shape, cards, abstract, ctc_code, meths)
+                except Exception as exc:
+                    ok = False
+                    out.append('metric filter %r raises %s: %s' % (meths, type(exc).__name__, exc))
+                if not ok:
+                    out.append('metric filter %r: entries differ from those of the full report (shape %s cards %r)' % (meths, R.shape_str(shape), cards))
+                if len(out) >= 3:
+                    return out
+    return out
+
+
+def batch_filter_pairs(seed):
+    """every ordered pair of the 40 metrics as filter, on three models."""
+    res = {'instances': 0, 'nontrivial': 0, 'violations': [], 'native_runs': 0}
+    for shape, cards in (((((), ()), ((((),),),)), [(1, 2), (0, 1), (1, 1)]), (SIB, [(1, 1), (1, 2)]), ((((), (), ()),), [(2, 3)])):
+        n = R.n_features(shape)
+        args = [shape, cards, [i % 2 == 1 for i in range(n)], 4]
+        res['instances'] += len(METHODS) * (len(METHODS) - 1)
+        res['native_runs'] += len(METHODS) * (len(METHODS) - 1) * 2
+        res['nontrivial'] += 1
+        bad = replay_filter_pairs(*args)
+        if bad:
+            res['violations'].append({'label': 'metrics-filter', 'detail': bad[0], 'replay_func': 'replay_filter_pairs', 'replay_args': args})
+    res['sample'] = {'filters': 'all ordered pairs of the 40 metrics'}
+    return res
+
+
+SIB = (((), ()), ((), ()))
 
 
 def batch_native(max_n, lo, hi, seed):
@@ -328,6 +430,13 @@ def conditions(tier, seed):
                           body='P.report_ok(SHAPE_%d, %r, [%s], %d)' % (si, R.default_cards(shape), ', '.join('x%d' % i for i in range(n)), (code + 2) % len(CTC_SETS)),
                           timeout=T, aspect='report == definitions (abstract flags symbolic)',
                           sample={'shape': R.shape_str(shape), 'symbolic': 'abstract flags'}, validate=[tuple([False] * n), tuple([True] * n)]))
+        if n >= 3:
+            fi, fj = (si * 7 + seed) % len(METHODS), (si * 11 + seed + 3) % len(METHODS)
+            conds.append(Cond(name='c17_filter_%d' % si, imports=imp, params=cp, pre=cpre,
+                              body='P.filter_pair(SHAPE_%d, %s, %d, %d)' % (si, cexpr, fi, fj), timeout=T,
+                              aspect='report filtered to two metrics (rotating over the 40; every pair is run natively) == those entries of the full report, cards symbolic',
+                              sample={'shape': R.shape_str(shape), 'symbolic': 'all (min,max)', 'filter': [METHODS[fi], METHODS[fj]]},
+                              validate=[dc]))
         if n <= 3 or tier != 'quick':
             conds.append(Cond(name='c17_hist_%d' % si, imports=imp, params=cp + ', c: int, d: int', pre=cpre + ['0 <= c <= d <= 2 and d >= 1'],
                               body='P.history_ok(SHAPE_%d, %s, %r, (((), ()),), [(c, d)], %d)' % (si, cexpr, absl, code), timeout=T,
@@ -340,7 +449,7 @@ def batches(tier, seed):
     N = 4 if tier == 'quick' else 5
     total = len(R.shapes(N))
     step = total // 16 + 1
-    return [('batch_native', [N, lo, lo + step, seed + lo]) for lo in range(0, total, step)]
+    return [('batch_native', [N, lo, lo + step, seed + lo]) for lo in range(0, total, step)] + [('batch_filter_pairs', [seed])]
 
 
 def info(tier):
